@@ -47,6 +47,33 @@ fn main() {
     }
     include!("flows_table.rs");
 
+    // C35: cluster -> cluster demux with the generated bincode closures
+    macro_rules! demux_flow {
+        ($name:ident, $t:ty) => {{
+            let name = stringify!($name);
+            let mut flow = FlowBuilder::new();
+            let src = flow.cluster::<h_quorum_flows::Src>();
+            let dst = flow.cluster::<h_quorum_flows::Dst>();
+            h_quorum_flows::$name(
+                &dst,
+                src.embedded_input::<(hydro_lang::location::MemberId<h_quorum_flows::Dst>, $t)>("input"),
+            )
+            .assume_ordering::<hydro_lang::live_collections::stream::TotalOrder>(hydro_lang::prelude::nondet!(/** harness */))
+            .embedded_output("output");
+            let code = flow
+                .with_cluster(&src, concat!(stringify!($name), "_sender"))
+                .with_cluster(&dst, concat!(stringify!($name), "_receiver"))
+                .generate_embedded("h_quorum_flows");
+            std::fs::write(format!("{out_dir}/{name}.rs"), prettyplease::unparse(&code)).unwrap();
+            mods.push_str(&format!(
+                "#[allow(unused_imports, unused_qualifications, non_snake_case, clippy::all)]\npub mod {n} {{ include!(concat!(env!(\"OUT_DIR\"), \"/{n}.rs\")); }}\n",
+                n = name
+            ));
+        }};
+    }
+    demux_flow!(dm_u32, u32);
+    demux_flow!(dm_rich, h_quorum_flows::Rich);
+
     std::fs::write(format!("{out_dir}/mods.rs"), mods).unwrap();
     drivers.push_str("fn dispatch(flow: &str, ticks: &[Value]) -> Value {\n    match flow {\n");
     drivers.push_str(&dispatch);
